@@ -4,9 +4,9 @@ package main
 // three parser entry points, with a direct oracle that is independent of the Coq model:
 // every token / *ParseError position is checked against the raw bytes of the source.
 //
-//	lex   <hex>          -> "<oracle> | (TYPE "hexlit" line col) ..."      tokens up to and including the first EOF
-//	pump  <hex>          -> "(m (TYPE "hexlit" line col) nest prevEmpty ((c "hexlit" line col lf prevEmpty) ...)) ..."
-//	parse <mode> <hex>   -> "ok" | "perr <oracle> (TYPE "hexlit" line col)" | "plain "hexmsg""      mode: vcl|snippet|auto
+//	lex   <hex>          -> "<oracle> | (TYPE "hexlit" line col offset) ..."      tokens up to and including the first EOF
+//	pump  <hex>          -> "(m (TYPE "hexlit" line col offset) nest prevEmpty ((c "hexlit" line col lf prevEmpty) ...)) ..."
+//	parse <mode> <hex>   -> "ok" | "perr <oracle> (TYPE "hexlit" line col offset)" | "plain "hexmsg""      mode: vcl|snippet|auto
 //
 // <oracle> is "good" or "bad:<reason>".
 
@@ -25,6 +25,18 @@ func init() {
 	register("lex", lexHandler)
 	register("pump", pumpHandler)
 	register("parse", parseHandler)
+	// the strconv.ParseFloat verdicts the parser model needs as its oracle (floatOracle and
+	// significant are C02's, harness/cmd/implrun/parse.go): "hex=0/1,..." or "-"
+	register("floats", func(args string) string {
+		src, err := unhx(strings.TrimSpace(args))
+		if err != nil {
+			return "badreq"
+		}
+		if o := floatOracle(significant(string(src))); o != "" {
+			return o
+		}
+		return "-"
+	})
 }
 
 func tokSx(t token.Token) string {
@@ -32,7 +44,7 @@ func tokSx(t token.Token) string {
 	if ty == "" {
 		ty = "<empty>"
 	}
-	return fmt.Sprintf("(%s %s %d %d)", ty, hx(t.Literal), t.Line, t.Position)
+	return fmt.Sprintf("(%s %s %d %d %d)", ty, hx(t.Literal), t.Line, t.Position, t.Offset)
 }
 
 // ---- position table computed from the raw bytes only (Go's own rune decoding of a string) ----
